@@ -8,7 +8,7 @@ dumped tables `Gen/TypeRules.lean`, `Gen/Builtins.lean` (regenerated from /repo 
 * `gen_*`: the tables of the real checker equal the closed forms the model uses (whole tables, by
   `decide`), and equal the documented tables except on an explicit list of entries (D-09d).
 * `c09_full` is the property at full strength; it is FALSE of the current code (`c09_full_is_false`,
-  witnesses D-09c / D-09d / D-09b).
+  witness D-09b; D-09c and D-09d are fixed).
 * `c09_partial`: for EVERY program the diagnostics of the scoping rules (undeclared variable /
   placeholder / assignment target / function, arity of user and global builtin functions,
   `comot`/`next` outside a loop of the same function body, `return` outside a function, duplicate
@@ -74,13 +74,10 @@ theorem gen_behaviour_probes :
 
 /-! ### … and the documented tables -/
 
-/-- Acceptance of every operator application by the real checker is the documented one, except on
-the listed entries (D-09d: `"a" add true`, `null or 1`, … accepted although no run-time instance of
-the operand types has a meaning). -/
+/-- Acceptance of every operator application by the real checker is the documented one: some
+run-time instance of the operand types has a meaning (D-09d is fixed: no deviating entry). -/
 theorem gen_matches_doc :
-    Gen.TypeRules.binary.all (fun (op, l, r, ok, _) =>
-      ok == (Doc.binaryOk op l r || Doc.knownDeviation op l r)
-        && !(Doc.binaryOk op l r && Doc.knownDeviation op l r)) = true ∧
+    Gen.TypeRules.binary.all (fun (op, l, r, ok, _) => ok == Doc.binaryOk op l r) = true ∧
     Gen.TypeRules.unary.all (fun (op, t, ok, _) => ok == Doc.unaryOk op t) = true ∧
     Gen.TypeRules.cond.all (fun (t, ok) => ok == Doc.condOk t) = true ∧
     Gen.TypeRules.indexBase.all (fun (t, ok) => ok == Doc.indexBaseOk t) = true ∧
@@ -133,16 +130,6 @@ def c09_full : Prop := ∀ p : Block, (resolve p).diags.filter isError = [] ↔ 
 
 private def sp : Span := ⟨0, 0⟩
 
-/-- D-09c: `shout("abc".find(5))` — the literal argument type of a string method is not checked. -/
-def witnessMethodArg : Block :=
-  .mk [.expr (.call (.var (b!"shout") none sp)
-        [.call (.member (.str (.static (b!"abc")) sp) (b!"find") sp sp) [.num (b!"5") sp] none sp] none sp) none sp] sp
-
-/-- D-09d: `shout("a" add true)` — the operator table accepts a combination without meaning. -/
-def witnessOperator : Block :=
-  .mk [.expr (.call (.var (b!"shout") none sp)
-        [.binary .add (.str (.static (b!"a")) sp) (.bool true sp) sp] none sp) none sp] sp
-
 /-- D-09b: `make x get "s"  start  do f() start make x get 1 return x end  shout(f() minus 1)  end` —
 the return type of `f` is inferred at block entry in the ENCLOSING scope, where `x` is a string:
 a valid program is rejected. -/
@@ -155,21 +142,9 @@ def witnessReturnScope : Block :=
            [.binary .minus (.call (.var (b!"f") none sp) [] none sp) (.num (b!"1") sp) sp] none sp) none sp] sp)
          none sp] sp
 
-theorem witnessMethodArg_accepted_not_wf :
-    (resolve witnessMethodArg).diags = [] ∧ ¬ WF witnessMethodArg := by decide +kernel
-
-theorem witnessOperator_accepted_not_wf :
-    (resolve witnessOperator).diags = [] ∧ ¬ WF witnessOperator := by decide +kernel
-
 theorem witnessReturnScope_wf_rejected :
     WF witnessReturnScope ∧ (resolve witnessReturnScope).diags.map (·.kind) = [.typeMismatch] := by
   decide +kernel
-
-/-- The full-strength statement is false of the current code. -/
-theorem c09_full_is_false : ¬ c09_full := by
-  intro h
-  have h1 := (h witnessMethodArg).mp (by rw [witnessMethodArg_accepted_not_wf.1]; rfl)
-  exact witnessMethodArg_accepted_not_wf.2 h1
 
 /-! ### What holds for every program: the scoping rules -/
 
@@ -182,6 +157,15 @@ theorem diags_all_errors (p : Block) : (resolve p).diags.filter isError = (resol
   simp only [List.mem_map] at hd
   obtain ⟨r, _, rfl⟩ := hd
   rfl
+
+/-- The full-strength statement is false of the current code. -/
+theorem c09_full_is_false : ¬ c09_full := by
+  intro h
+  have h1 := (h witnessReturnScope).mpr witnessReturnScope_wf_rejected.1
+  have h2 := witnessReturnScope_wf_rejected.2
+  rw [diags_all_errors] at h1
+  rw [h1] at h2
+  exact absurd h2 (by decide)
 
 /-- **C09, scoping rules, all programs**: the checker's diagnostics for the scoping rules are exactly
 the specification's violations (rule, span, order). -/
